@@ -284,6 +284,16 @@ def run_loop(ctx, pid):
                 for mfe in ((60,) if q else (60, 75)):
                     for cp in (False, True):
                         nz.append(_e1job(D, mode, {"max_fun_evals": mfe, "noise_final_samples": nfs, "complete_poll": cp}, seed))
+    # complete budget windows just above the (measured) initial design, all noise modes
+    nprobe = [_e1job(1, m, {"max_fun_evals": 90, "noise_final_samples": 3}, seed) for m in ("auto", "decl", "spec")]
+    nw = []
+    for j, r in zip(nprobe, pmap(execute, nprobe)):
+        n0 = r["n_init"]
+        for D in ((1,) if q else (1, 2)):
+            for nfs in ((3,) if q else (1, 3, 10)):
+                for mfe in range(n0, n0 + 13):
+                    nw.append(_e1job(D, j["mode"], {"max_fun_evals": mfe, "noise_final_samples": nfs}, seed))
+    st = explore(nw, ["noise"], 0, sink, stats=st, name="noisy/budget-window")
     st = explore(nz, ["noise"], 0 if q else 1, sink, stats=st, name="noisy",
                  pos_ok=lambda kind, pos, res: pos % 3 == 0, cap=None if q else st["executions"] + 20000)
     # constrained runs (possibly empty search sets)
